@@ -594,12 +594,13 @@ def _parse_experimental_function_value_info_name(
         A tuple of the function domain, function name and value name if the value info is for a function.
         None otherwise.
     """
-    # The value name is free text and may itself contain the separators, so split
-    # only at the first occurrence of each
-    function, separator, value_name = name.partition("/")
+    # The value name is free text and may itself contain the separators, and a domain may
+    # contain "/": split off the components in the order they are written, each at the
+    # first occurrence of the separator that follows it
+    function_domain, separator, function_and_value = name.partition("::")
     if not separator:
         return None
-    function_domain, separator, function_name = function.partition("::")
+    function_name, separator, value_name = function_and_value.partition("/")
     if not separator:
         return None
     # NOTE: There will not be overload because overloads are introduced in ONNX IR v10, which also
